@@ -40,3 +40,21 @@ theorem visit_ioc_first (o : Inner α) (q : Quote α) (h : o.order.typ = .limit 
   · by_cases hc : q.ask ≤ lpx * (1 + slippage) <;> simp [visit, hc, mkFill]
 
 end PJ
+
+namespace PJ
+variable {α : Type} [LE α] [DecidableLE α] [Add α] [Sub α] [Mul α] [OfNat α 1] [OfScientific α]
+
+/-- C18: a good-till-cancel limit fills iff ask ≤ limit (buy) / bid ≥ limit (sell); otherwise it is
+    left in the book untouched -/
+theorem visit_gtc (o : Inner α) (q : Quote α) (h : o.order.typ = .limit .gtc) :
+    (visit o q).order = o ∧ (visit o q).child = none ∧ (visit o q).panic = false ∧
+    let ok := if o.order.isBuy then q.ask ≤ o.order.limitPx else o.order.limitPx ≤ q.bid
+    (ok → (visit o q).del = true ∧ (visit o q).fill = some (mkFill o q o.order.isBuy)) ∧
+    (¬ ok → (visit o q).del = false ∧ (visit o q).fill = none) := by
+  obtain ⟨id, ⟨asset, isBuy, lpx, sz, ro, cl, typ⟩, att⟩ := o
+  simp only at h; subst h
+  cases isBuy
+  · by_cases hc : lpx ≤ q.bid <;> simp [visit, hc]
+  · by_cases hc : q.ask ≤ lpx <;> simp [visit, hc]
+
+end PJ
